@@ -32,8 +32,21 @@ type closureHint struct {
 // nameOverride: the contract name of a function literal whose ordinal changed.
 var nameOverride = map[*ssa.Function]string{}
 
+// sigString: parameter and result types only (parameter names may change).
 func sigString(fn *ssa.Function) string {
-	return types.TypeString(fn.Signature, func(p *types.Package) string { return p.Name() })
+	q := func(p *types.Package) string { return p.Name() }
+	tup := func(t *types.Tuple) string {
+		var s []string
+		for i := 0; i < t.Len(); i++ {
+			s = append(s, types.TypeString(t.At(i).Type(), q))
+		}
+		return "(" + strings.Join(s, ", ") + ")"
+	}
+	v := ""
+	if fn.Signature.Variadic() {
+		v = "..."
+	}
+	return "func" + tup(fn.Signature.Params()) + v + " " + tup(fn.Signature.Results())
 }
 
 // closureUse describes how the enclosing function uses the function literal a.
